@@ -60,6 +60,13 @@ static int oracle_selftest(uint64_t seed) {
 		++checked; ++both[v];
 		if (v == 1 && cex) { printf("oracle selftest (FA): included, but a counterexample word exists\n"); ++bad; }
 		// 4x4 states: a counterexample, if any, has length < 4*2^4; length<=5 covers most; only flag the safe direction
+		// the forward simulation handed to the library by fa_incl_sim: related states must have included languages,
+		// the relation must be reflexive and transitive
+		{ std::set<long> dom = a.states(); mdl::Rel R = mdl::fwd_sim(a, dom);
+		  for (long q : dom) if (!R.count(std::make_pair(q, q))) { printf("oracle selftest (FA): fwd_sim is not reflexive\n"); ++bad; break; }
+		  for (auto& x : R) for (auto& y : R) if (x.second == y.first && !R.count(std::make_pair(x.first, y.second))) { printf("oracle selftest (FA): fwd_sim is not transitive\n"); ++bad; goto simdone; }
+		  for (auto& pr : R) { mdl::FA p = a, q = a; p.starts = {pr.first}; q.starts = {pr.second}; if (mdl::incl(p, q) == 0) { printf("oracle selftest (FA): fwd_sim relates states whose languages are not included\n"); ++bad; break; } }
+		  simdone: ; }
 		mdl::FA rv = mdl::reverse(a);
 		for (auto& w : words) { std::vector<std::string> wr(w.rbegin(), w.rend()); if (mdl::accepts(a, w) != mdl::accepts(rv, wr)) { printf("oracle selftest (FA): reverse wrong\n"); ++bad; break; } }
 	}
